@@ -295,6 +295,11 @@ class Interp:
     def bind(self, p, v, scope, g, irrefutable=False):
         """binds pattern variables in scope; returns the literal 'pattern matches'"""
         k = p["k"]
+        if v is UNDEF and k != "Ident":
+            # value of a dead path (e.g. after `?` returned): names are bound to garbage, nothing matches
+            for nm in pat_names_all(p):
+                scope.vars[nm] = UNDEF
+            return F
         if k == "Ident":
             if p["sub"] is not None:
                 raise Unsupported("@ pattern")
@@ -477,7 +482,9 @@ class Interp:
             if s is not None:
                 return s.vars[name]
             if name in self.p.consts:
-                return OPQ if name.endswith("_WEIGHT") else self.eval(self.p.consts[name], Scope(), frame, g)
+                if name.endswith("_WEIGHT") and self.ctx.opaque_weights:
+                    return OPQ
+                return self.eval(self.p.consts[name], Scope(), frame, g)
             if name == "None":
                 return NONE
             if name in self.p.fns or name in self.p.links or name in self.natives:
@@ -1065,6 +1072,19 @@ def _obj_place(o):
 
 def frame_self_type(interp, frame):
     return None
+
+
+def pat_names_all(p):
+    k = p["k"]
+    if k == "Ident":
+        return [p["name"]]
+    if k in ("Type", "Ref"):
+        return pat_names_all(p["pat"])
+    if k in ("Tuple", "Slice", "TupleStruct"):
+        return [n for x in p["elems"] for n in pat_names_all(x)]
+    if k == "Struct":
+        return [n for f in p["fields"] for n in pat_names_all(f["pat"])]
+    return []
 
 
 def pat_names(p):
